@@ -54,9 +54,9 @@ SupportedWhy(ev, r, oi) ==
 
 \* one run of a line that must be rejected: failure, and nothing written from the start of that line on
 InvalidWhy(ev, r) ==
-  IF r.ret = 0 THEN "C10:accepted"
+  IF r.ret = 0 THEN "accepted"
   ELSE IF r.pre < 0 THEN ""
-  ELSE IF r.hi >= r.off0 + r.pre THEN "C10:emitted"
+  ELSE IF r.hi >= r.off0 + r.pre THEN "emitted"
   ELSE ""
 
 RunWhy(ev, r, oi) ==
@@ -67,6 +67,7 @@ RunWhy(ev, r, oi) ==
   ELSE IF r.lo # -1 /\ r.lo < r.off0 THEN "C07:before-start-offset"
   ELSE IF r.ret \notin {0, 1} THEN "C09:return-value"
   ELSE IF ev.status = "Supported" THEN SupportedWhy(ev, r, oi)
+  ELSE IF ev.status = "MayReject" THEN (IF r.ret = 0 THEN SupportedWhy(ev, r, oi) ELSE InvalidWhy(ev, [r EXCEPT !.ret = 1]))
   ELSE IF ev.status = "Invalid" THEN InvalidWhy(ev, r)
   ELSE ""
 
